@@ -5,18 +5,17 @@ CONSTANTS
   Ids <- I1
   MaxV = 6
   Programs <- SubCollPrograms
-  SubKinds <- KindsLossy
+  SubKinds <- Kinds
   InitStores <- CollStores
   PublishAfterUnlock = FALSE
   CreatedRevalidated = TRUE
   DeleteHoldsLock = TRUE
-  SnapHoldsLock = TRUE
+  SnapHoldsLock = FALSE
   DeleteRechecks = TRUE
   Equiv = "none"
   SubSer = FALSE
   MayCancel = FALSE
   SnapAtCommit = TRUE
   CollectLive = TRUE
-VIEW ViewNoHist
-INVARIANTS TypeOK CommitValid EffectOnce LoserCodes Converged NoCommitMissed
+INVARIANT EmitSched
 CHECK_DEADLOCK FALSE
